@@ -145,6 +145,14 @@ func C14(p *an.Prog, r *an.Report) {
 	}
 	c14ReaderValidates(p, r)
 	c14LengthNarrowing(p, r, "C14.N4")
+	// N7: the key-length-vs-type validators size public keys by public-key columns (same rule as C10.T4)
+	c10PrivateColumns(p, r, "C14.N7")
+	// N6: the invariant the reviewed narrowing in Mapping.Data rests on (same rule as C11.M3)
+	if vtm := p.Func("data.ValuesToMapping"); vtm != nil {
+		c11SizeLimit(p, r, vtm, "C14.N6")
+	} else {
+		r.Fail("C14.N6: data.ValuesToMapping not found (the size invariant behind the reviewed narrowing cannot be checked)")
+	}
 	c02SigTypeSource(p, r, "C14.N5") // round trip with an empty remainder needs the trailing signature typed as the parser expects
 }
 
